@@ -45,14 +45,65 @@ WiringPoints ==
                                                        [NoSh EXCEPT !.file = FFD], [NoSh EXCEPT !.path = PATHS]}}
   \cup {Opt(<<R(T_PIPE, 0, 0, ""), b, c>>, NoSh, 2, FALSE, TRUE) : b \in {U, R(T_PARENT, 0, 0, "")}, c \in {U, R(T_STDOUT, 0, 0, "")}}
 
-Points == IF Family = "options" THEN OptionPoints ELSE WiringPoints
+(* ---- family "env" (C03 C12): argv, environment, working directory, program resolution, signal state ---- *)
+EnvBase == [argvx |-> <<>>, envb |-> 0, envx |-> <<"none">>, penv |-> <<"P=1">>, wd |-> "", prog |-> "/bin/c",
+            cwd |-> "/w", cwdlen |-> 0, mask |-> <<>>, disp |-> <<>>]
+ArgvXs == {<<>>, <<"a b">>, <<"", "q\"x", "b\\s", "k=v", " ", "-x">>, <<"a", "a", "a">>}
+EnvXs == {<<"none">>, <<>>, <<"A=1">>, <<"B=2", "A=3", "=x", "C", "A=1">>}
+PEnvs == {<<>>, <<"P=1">>, <<"P=1", "Q=", "A=0">>}
+Progs == {"/bin/c", "./c", "sub/c", "c", "sub//c"}
+Cwds == {"/w", "/"}
+CwdLens == {0, 1, 4093, 4094, 4095, 4096, 4097, 8189, 8190, 8191, 8192, 8193, 4000, 5000}
+Masks == {<<>>, <<15>>, <<13, 17>>, <<1, 2, 3, 13, 14, 15, 17, 20, 34, 64>>}
+Disps == {<<>>, <<<<15, 1>>>>, <<<<2, 2>>, <<13, 1>>, <<17, 2>>>>}
+EnvPoints ==
+  LET vary == {[EnvBase EXCEPT !.argvx = a] : a \in ArgvXs}
+         \cup {[EnvBase EXCEPT !.envb = b, !.envx = x, !.penv = p] : b \in {0, 1}, x \in EnvXs, p \in PEnvs}
+         \cup {[EnvBase EXCEPT !.wd = w, !.prog = p, !.cwd = c] : w \in {"", "/d"}, p \in Progs, c \in Cwds}
+         \cup {[EnvBase EXCEPT !.wd = "/d", !.prog = p, !.cwdlen = l] : p \in {"./c", "/bin/c"}, l \in CwdLens}
+         \cup {[EnvBase EXCEPT !.mask = ms, !.disp = d, !.wd = w] : ms \in Masks, d \in Disps, w \in {"", "/d"}}
+  IN {Opt(<<U, U, U>>, NoSh, -1, FALSE, TRUE) @@ [x |-> v] : v \in vary}
+
+\* scenarios for the fault sweep (C04 C05 C06 C12): every redirect kind at some stream, the shorthands, start-up input,
+\* working directory + relative program, extra environment, a non-trivial signal state
+PIPE_ == R(T_PIPE, 0, 0, "")
+FaultScenPoints ==
+  LET w == {<<U, U, U>>, <<PIPE_, PIPE_, PIPE_>>, <<R(T_PARENT, 0, 0, ""), R(T_DISCARD, 0, 0, ""), R(T_STDOUT, 0, 0, "")>>,
+            <<R(T_HANDLE, HFD, 0, ""), R(T_FILE, 0, FFD, ""), R(T_PATH, 0, 0, PATHS)>>,
+            <<R(T_PATH, 0, 0, PATHS), PIPE_, R(T_STDOUT, 0, 0, "")>>, <<R(T_DISCARD, 0, 0, ""), R(T_PARENT, 0, 0, ""), PIPE_>>}
+      base == Opt(<<U, U, U>>, NoSh, -1, FALSE, TRUE)
+  IN {Opt(rd, NoSh, -1, FALSE, TRUE) @@ [x |-> EnvBase] : rd \in w}
+     \cup {Opt(<<U, U, U>>, sh, -1, FALSE, TRUE) @@ [x |-> EnvBase] : sh \in {[NoSh EXCEPT !.parent = TRUE], [NoSh EXCEPT !.path = PATHS]}}
+     \cup {Opt(<<U, U, U>>, NoSh, 3, FALSE, TRUE) @@ [x |-> EnvBase]}
+     \cup {base @@ [x |-> [EnvBase EXCEPT !.wd = "/d", !.prog = "./c", !.envx = <<"A=1", "B=2">>, !.argvx = <<"a">>]],
+           base @@ [x |-> [EnvBase EXCEPT !.envb = 1, !.envx = <<"A=1">>, !.mask = <<13, 15, 17>>, !.disp = <<<<2, 2>>, <<13, 1>>>>]]}
+
+Points == IF Family = "options" THEN OptionPoints ELSE IF Family = "wiring" THEN WiringPoints
+          ELSE IF Family = "faultscen" THEN FaultScenPoints ELSE EnvPoints
+X == IF "x" \in DOMAIN o THEN o.x ELSE EnvBase
+
+\* C03: program resolution.  A path is relative if it does not start with "/" but contains one.
+IsRel(p) == p \in {"./c", "sub/c", "sub//c"}
+Joined(c, p) == IF c = "/" THEN "/" \o p ELSE c \o "/" \o p
+ExpProg == IF X.wd # "" /\ IsRel(X.prog) THEN Joined(X.cwd, X.prog) ELSE X.prog
+\* length of the program string when the parent's working directory has the synthetic length cwdlen
+ExpProgLen == IF X.wd # "" /\ IsRel(X.prog) THEN (IF X.cwdlen = 1 THEN 1 ELSE X.cwdlen + 1) + Len(X.prog) ELSE Len(X.prog)
+ExpEnv == (IF X.envb = 0 THEN X.penv ELSE <<>>) \o (IF X.envx = <<"none">> THEN <<>> ELSE X.envx)
+ENAMETOOLONG == -36
 
 Init == phase = "pick" /\ o \in Points /\ k \in {[std |-> s, hasInput |-> FALSE] : s \in StdSets}
 
 RJ(r) == <<r.t, r.h, r.f, r.p>>
 CfgRec == [e |-> "cfg", cap |-> 8, limit |-> 32, fds |-> [s \in 1..3 |-> IF k.std[s] THEN 1 ELSE 0], extra |-> Extras]
-StartRec == [e |-> "call", fn |-> "start", h |-> 1, term |-> 2, argv |-> IF o.argv THEN <<"/bin/c">> ELSE <<>>, noargv |-> IF o.argv THEN 0 ELSE 1,
-             o |-> [rin |-> RJ(o.rd[1]), rout |-> RJ(o.rd[2]), rerr |-> RJ(o.rd[3]),
+          @@ (IF Family \in {"env", "faultscen"}
+                THEN [env |-> X.penv, cwd |-> X.cwd, cwdlen |-> X.cwdlen, mask |-> X.mask, disp |-> X.disp,
+                      fs |-> <<<<"/w/./c", 3>>, <<"/w/sub/c", 3>>, <<"/w/sub//c", 3>>, <<"/./c", 3>>, <<"/sub/c", 3>>, <<"/sub//c", 3>>,
+                               <<"c", 3>>, <<"./c", 3>>, <<"sub/c", 3>>, <<"sub//c", 3>>, <<"/./c", 19>>>>]
+                ELSE <<>>)
+StartRec == [e |-> "call", fn |-> "start", h |-> 1, term |-> 2, argv |-> IF o.argv THEN <<X.prog>> \o X.argvx ELSE <<>>, noargv |-> IF o.argv THEN 0 ELSE 1,
+             o |-> (IF Family \in {"env", "faultscen"} THEN [envb |-> X.envb] @@ (IF X.envx = <<"none">> THEN <<>> ELSE [envx |-> X.envx])
+                                           @@ (IF X.wd = "" THEN <<>> ELSE [wd |-> X.wd]) ELSE <<>>) @@
+                   [rin |-> RJ(o.rd[1]), rout |-> RJ(o.rd[2]), rerr |-> RJ(o.rd[3]),
                     parent |-> IF o.sh.parent THEN 1 ELSE 0, discard |-> IF o.sh.discard THEN 1 ELSE 0,
                     file |-> o.sh.file, path |-> o.sh.path, input |-> o.input, fork |-> IF o.fork THEN 1 ELSE 0]]
 BaseFds == Cardinality({s \in 1..3 : k.std[s]}) + Len(Extras)
@@ -65,6 +116,19 @@ Expected ==
        [] v.v = "late" -> common @@ [r |-> EINVAL, nfd |-> BaseFds, left |-> 0]
        [] v.v = "unspecified" -> [e |-> "ret", mon |-> <<>>]
        [] v.v = "accept" /\ o.fork -> [e |-> "ret", mon |-> <<>>, r |-> 1]
+       [] Family = "env" /\ X.cwdlen > 0 /\ ExpProgLen >= 4096 ->
+            \* beyond the path-length limit the only requirement is a clean failure
+            common @@ [r |-> ENAMETOOLONG, nfd |-> BaseFds, left |-> 0, pmask |-> X.mask, pdisp |-> X.disp]
+       [] Family = "faultscen" ->
+            common @@ [r |-> 1, cw |-> ChildWiring(v.eff, kk), cx |-> ChildExtra(v.eff), pp |-> ParentEnds(v.eff, kk.hasInput),
+                       cnb |-> 0, cexec |-> 1, cmask |-> <<>>, cdisp |-> <<>>, pmask |-> X.mask, pdisp |-> X.disp, pcwd |-> X.cwd,
+                       cargv |-> <<X.prog>> \o X.argvx, cenv |-> ExpEnv, cprog |-> ExpProg]
+       [] Family = "env" ->
+            common @@ [r |-> 1, left |-> 0, cexec |-> 1, cargv |-> <<X.prog>> \o X.argvx, cenv |-> ExpEnv,
+                       pmask |-> X.mask, pdisp |-> X.disp, penv |-> X.penv, cmask |-> <<>>, cdisp |-> <<>>]
+                   @@ (IF X.cwdlen > 0 /\ X.wd # "" /\ IsRel(X.prog) THEN [cprogl |-> <<ExpProgLen, 1>>]
+                       ELSE IF X.cwdlen > 0 THEN [cprog |-> X.prog]
+                       ELSE [cprog |-> ExpProg, ccwd |-> IF X.wd = "" THEN X.cwd ELSE X.wd, pcwd |-> X.cwd])
        [] v.v = "accept" -> common @@ [r |-> 1, cw |-> ChildWiring(v.eff, kk), cx |-> ChildExtra(v.eff),
                                       pp |-> ParentEnds(v.eff, kk.hasInput), cnb |-> 0, cexec |-> 1,
                                       nfd |-> BaseFds + Len(ParentEnds(v.eff, kk.hasInput)), left |-> 0]
